@@ -121,7 +121,37 @@ theorem C14_sym_key_overflows_counterexample :
     ∀ c ∈ symAggTable, c.1 ∈ ["clickhouse", "databricks", "spark"] → keyFits c.1 c.2.1 c.2.2.1 c.2.2.2 = some false := by
   decide +kernel
 
-/-- the tables are complete: 7 dialects x 6 granularities x 3 column forms, 7 x 5 intervals, 7 symmetric-aggregate rows -/
-theorem C14_tables_complete : dateTruncTable.length = 126 ∧ intervalTable.length = 35 ∧ symAggTable.length = 7 := by decide +kernel
+/-! ### NULL placement of ORDER BY keys
+
+Each engine has its own default place for NULL sort keys (specification from the engines' documentation): DuckDB and
+ClickHouse put them last in both directions, PostgreSQL and Snowflake treat them as larger than every value, BigQuery and
+Spark / Databricks as smaller.  A dialect's ORDER BY therefore needs an explicit NULLS FIRST / NULLS LAST exactly where its
+default differs, or an ordered (and, with LIMIT, a sliced) result differs between dialects. -/
+
+/-- where the engine puts NULL keys when the ORDER BY item says nothing (true = first) -/
+def nullsFirstDefault (dialect : String) (desc : Bool) : Option Bool :=
+  match dialect with
+  | "duckdb" | "clickhouse" => some false
+  | "postgres" | "snowflake" => some desc
+  | "bigquery" | "spark" | "databricks" => some (!desc)
+  | _ => none
+
+/-- where NULL keys end up under the ORDER BY item the generator emitted -/
+def effectiveNullsFirst (dialect : String) (desc : Bool) (explicit : String) : Option Bool :=
+  match explicit with
+  | "FIRST" => some true
+  | "LAST" => some false
+  | "" => nullsFirstDefault dialect desc
+  | _ => none
+
+/-- in every dialect, for dimension and metric sort keys in both directions, NULL keys sort as the smallest value:
+first ascending, last descending — so all dialects order (and slice) a result alike -/
+theorem C14_null_order_uniform :
+    ∀ c ∈ orderNullsTable, effectiveNullsFirst c.1 c.2.2.1 c.2.2.2 = some (!c.2.2.1) := by
+  decide +kernel
+
+/-- the tables are complete: 7 dialects x 6 granularities x 3 column forms, 7 x 11 intervals (plural and singular units), 7 symmetric-aggregate rows -/
+theorem C14_tables_complete : dateTruncTable.length = 126 ∧ intervalTable.length = 77 ∧ symAggTable.length = 7 ∧
+    orderNullsTable.length = 28 := by decide +kernel
 
 end SideVerif
